@@ -80,6 +80,7 @@ template <typename S> struct monitored : S {
     }
 };
 
+struct st_px3 { unsigned char c[3]; }; struct st_p24 { double d[3]; }; struct st_p16 { uint64_t a, b; }; // buffer element types whose size does not divide typical frame sizes
 struct c19_ctx { std::atomic<int> started{0}, finished{0}, canary_bad{0}; };
 // extra object with an alignment requirement above the frame's natural 8 bytes
 struct alignas(16) tracked16 { tracked t; long double ld; explicit tracked16(uint64_t id) : t(id), ld(1.5L) {} bool ok() const { return t.ok() && ((uintptr_t)this % alignof(tracked16)) == 0 && ld == 1.5L; } };
@@ -368,6 +369,19 @@ inline void storage_sequences(const vf::opts &o, vf::report &R, uint64_t seqs) {
                 st_sequence<monitored<RB>>(r, [vp] { return std::make_unique<monitored<RB>>(*vp); }, 1, true, res, pname);
                 if (res.err.empty()) res.err = st_no_heap_after_warmup<monitored<RB>>([vp] { return std::make_unique<monitored<RB>>(*vp); }, (int)r.below(ST_NSIZES), pname);
                 if (res.err.empty() && r.chance(1, 2)) res.err = st_raw_walk<monitored<RB>>(r, [vp] { return std::make_unique<monitored<RB>>(*vp); }, pname, res.desc);
+                if (res.err.empty()) { // every frame must lie wholly inside the buffer (the buffer counts ELEMENTS, the frame bytes: the element size need not divide the frame size)
+                    Vec fresh; vp->swap(fresh);
+                    monitored<RB> st(*vp);
+                    c19_ctx C;
+                    for (int k = 0; k < 4 && res.err.empty(); k++) {
+                        int sc = (int)r.below(ST_NSIZES);
+                        cocls::future<int> f = st_start(st, C, 40 + k, nullptr, sc);
+                        char *fp = g_last_frame.load(std::memory_order_relaxed), *b = (char *)vp->data(), *e = b + vp->size() * sizeof(typename Vec::value_type);
+                        std::size_t fs = g_last_frame_size.load(std::memory_order_relaxed);
+                        if (f.wait() != 40 + k) res.err = "wrong value";
+                        else if (fp < b || fp + fs > e) res.err = "a frame of " + std::to_string(fs) + " bytes was placed into a buffer of " + std::to_string((size_t)(e - b)) + " bytes (element size " + std::to_string(sizeof(typename Vec::value_type)) + ")";
+                    }
+                }
                 if (res.err.empty() && r.chance(1, 2)) {
                     // between two coroutines (none alive) the user may do anything with the buffer - grow it, swap it, shrink it: the next
                     // frame must live in the buffer as it is THEN
@@ -390,7 +404,14 @@ inline void storage_sequences(const vf::opts &o, vf::report &R, uint64_t seqs) {
                 }
             };
             struct t8 { using type = std::vector<uint64_t>; }; struct t1 { using type = std::vector<char>; };
-            if (r.chance(1, 2)) run_rb(t8{}); else { run_rb(t1{}); res.desc += " [vector<char>]"; }
+            struct t3 { using type = std::vector<st_px3>; }; struct t24 { using type = std::vector<st_p24>; }; struct t16 { using type = std::vector<st_p16>; };
+            switch (r.below(5)) {
+            case 0: run_rb(t8{}); break;
+            case 1: run_rb(t1{}); res.desc += " [vector<char>]"; break;
+            case 2: run_rb(t3{}); res.desc += " [vector of 3-byte elements]"; break;
+            case 3: run_rb(t24{}); res.desc += " [vector of 24-byte elements]"; break;
+            default: run_rb(t16{}); res.desc += " [vector of 16-byte elements]"; break;
+            }
             break;
         }
         default: { // storage with an attached extra object (ordinary and over-aligned type, frames of 8 mod 16 and 0 mod 16 bytes)
